@@ -276,6 +276,8 @@ def run(ctx):
             if n <= 6 or (n == 7 and (ctx.thorough() and si % 8 == 0 or not ctx.thorough() and si < 3)):
                 for p_env in (0.1, 0.9):
                     tasks.append((n, spec, p_env, letters))
+                if n <= 6 and si % 4 == 0:
+                    tasks.append((n, spec, 0.5, letters))     # equal weights on both sides are still weights of 0.5, not 1
     tasks.sort(key=lambda t: -(4 ** t[0]) * t[1][2] * (1 if t[2] is None else 8))
     ctx.pmap(_task, tasks)
     ltasks = [(n, lc, p_env, letters) for n in range(min(maxn, 7), 4, -1) for lc in LCS for p_env in (0.1, 0.9)]
